@@ -32,7 +32,7 @@ func c13Ctx(cv string) pongo2.Context {
 		// context keys named like macro parameters: a parameter (also an omitted one) shadows them
 		"p0": "CTX-p0", "p2": "CTX-p2", "p3": 33,
 		"tick": func() string { atomic.AddInt64(&c13Ticks, 1); return "" },
-		"z40":  make([]int, 40), "one": []int{1}}
+		"z40":  make([]int, 40), "one": []int{1}, "selfname": "/main.tpl", "othername": "/other.tpl"}
 }
 
 type c13Macro struct {
@@ -257,6 +257,13 @@ var c13Graphs = []c13Graph{
 	{"body-and-default", map[string]string{"/main.tpl": "{% macro a(y=b()) %}{{ tick() }}{% endmacro %}{% macro b() %}{{ a() }}{% endmacro %}{{ b() }}"}},
 	{"exported-called-locally", map[string]string{"/main.tpl": "{% macro r() export %}{{ tick() }}{{ r() }}{% endmacro %}{{ r() }}"}},
 	{"via-include", map[string]string{"/main.tpl": "{% macro r() %}{{ tick() }}{% include \"/inc.tpl\" %}{% endmacro %}{{ r() }}", "/inc.tpl": "{{ r() }}"}},
+	// the cycle leaves the macro through a computed-name include that leads back to the template defining (importing) it:
+	// every level is a fresh execution, so only the bound on nested executions can stop it - it must still hold inside macro bodies
+	{"macro-lazy-include-self", map[string]string{"/main.tpl": "{% macro r() %}{{ tick() }}{% include selfname %}{% endmacro %}{{ r() }}"}},
+	{"macro-in-with-lazy-include-self", map[string]string{"/main.tpl": "{% macro r(a) %}{{ tick() }}{% with w=a %}{% for i in one %}{% include selfname %}{% endfor %}{% endwith %}{% endmacro %}{{ r(1) }}"}},
+	{"imported-macro-lazy-include-importer", map[string]string{"/main.tpl": "{% import \"/lib.tpl\" r %}{{ r() }}", "/lib.tpl": "{% macro r() export %}{{ tick() }}{% include selfname %}{% endmacro %}"}},
+	{"macro-lazy-include-other-that-includes-back", map[string]string{"/main.tpl": "{% macro r() %}{{ tick() }}{% include othername %}{% endmacro %}{{ r() }}", "/other.tpl": "{% include \"/main.tpl\" %}"}},
+	{"macro-ssi-parsed-self", map[string]string{"/main.tpl": "{% macro r() %}{{ tick() }}{% if selfname %}{% include selfname %}{% endif %}{% endmacro %}{% block b %}{{ r() }}{% endblock %}"}},
 }
 
 func c13Layout(r *Rng, src string) string {
